@@ -25,6 +25,9 @@ thread_local! {
 pub fn set_tape(t: Option<Vec<u8>>) {
     TAPE.with(|c| *c.borrow_mut() = t.map(Arc::new));
 }
+pub fn tape_bytes() -> Option<Vec<u8>> {
+    TAPE.with(|c| c.borrow().as_ref().map(|a| a.as_ref().clone()))
+}
 pub fn tape_active() -> bool {
     TAPE.with(|c| c.borrow().is_some())
 }
